@@ -394,6 +394,11 @@ func genC10(t *rapid.T) *Bundle {
 		tags = append(tags, "shape:"+fq.Shape)
 		// most callers install no UnReportedErrors handler
 		op.NoHandlers = rapid.Bool().Draw(t, "no_handlers")
+		if !op.NoHandlers && rapid.IntRange(0, 2).Draw(t, "handler_panics") == 0 {
+			// ... and a handler is the caller's code, run on a goroutine the library started: it may panic
+			op.HandlerPanics = true
+			tags = append(tags, "handler_panics")
+		}
 	case "pjoin":
 		jt := rapid.SampledFrom([]string{"PARALLEL JOIN", "PARALLEL LEFT JOIN", "PARALLEL RIGHT JOIN", "PARALLEL STRAIGHT_JOIN", "PARALLEL HASH_JOIN", "PARALLEL LEFT HASH_JOIN", "JOIN", "LEFT JOIN"}).Draw(t, "jt")
 		on := rapid.SampledFrom([]string{"x.f AND y.g", "x.id = y.id AND x.f", "x.a + 1 > y.id", "x.id < y.id OR x.f", "x.s = y.b", "x.id = y.id", "x.o = y.id", "x.n = y.id", "x.id >= y.id AND fid(1, x.a) > 0", "x.f", "x.id = y.id AND SETVAR('k', 1)", "x.id < y.id AND SETVAR('k', x.id)",
@@ -686,6 +691,7 @@ func corpusC10() []*Bundle {
 				c.Stubs.Faults = []casefmt.Fault{{ID: 1, K: 2, Kind: fk}}
 				c.Stubs.Lat = []casefmt.LatRule{{ID: 1, Call: -1, Ns: 1000000}}
 				c.Clients[0].Ops[0].NoHandlers = fk != "panic_str"
+				c.Clients[0].Ops[0].HandlerPanics = fk == "panic_str" && pl == places[0]
 				out = append(out, &Bundle{Prop: "C10", Kind: "bg_fault", Case: c, Expect: mustJSON(c10Expect{Kind: "bg_fault", Query: q}), Tags: []string{"corpus", "kind:bg_fault", "fault:" + fk, "strategy:" + st, "fault_in_background_call"}})
 			}
 		}
